@@ -242,8 +242,10 @@ def spaces(tier, variant, seed):
     def q_cases(blk):
         conv = blk
         for qi in range(len(QV)):
-            for fs in ("", "-", "+", " ", "+-", "- "):
+            for fs in ("", "-", "+", " ", "+-", "- ", "#", "#-", "#+"):
                 if ("+" in fs or " " in fs) and conv in "oxX":
+                    continue
+                if "#" in fs and conv in "di":
                     continue
                 for wi in range(7):
                     yield (conv, qi, fs, wi)
@@ -255,7 +257,11 @@ def spaces(tier, variant, seed):
         q = e["q"][0]
         q.set(qv.numerator, qv.denominator)
         base = {"d": 10, "i": 10, "o": 8, "x": 16, "X": -16}[conv]
-        body = to_str(abs(qv.numerator), base) + ("" if qv.denominator == 1 else "/" + to_str(qv.denominator, base))
+        pre = ""
+        if "#" in fs:
+            # the manual's own example is "%#40Qx": the base prefix goes on the numerator and on the denominator (none on a zero)
+            pre = {"x": "0x", "X": "0X", "o": "0"}[conv]
+        body = (pre if qv.numerator else "") + to_str(abs(qv.numerator), base) + ("" if qv.denominator == 1 else "/" + pre + to_str(qv.denominator, base))
         n = len(body)
         w = widths(n)[wi]
         gf, gargs = spec(fs, w, None, "Q", conv)
@@ -272,7 +278,7 @@ def spaces(tier, variant, seed):
             R.fail("gmp_printf %Q", "format %r value %s: got %r (ret %d) expected %r" % (gf, qv, out, r, s))
         return (conv, fs, wi, al.sgn(qv), qv.denominator == 1)
 
-    sp.append(Space("Q_layout", list("dioxX"), q_cases, q_one, "%Q{d,i,o,x,X}: num[/den] digits with sign and width/justification flags (no precision, no #/0: undefined or unspecified for Q)"))
+    sp.append(Space("Q_layout", list("dioxX"), q_cases, q_one, "%Q{d,i,o,x,X}: num[/den] digits with sign, # (prefix on numerator and denominator, as in the manual's %#40Qx example) and width/justification flags (no precision, no 0 flag: undefined for Q)"))
 
     # ---- %F against libc double output on short exactly representable values ----
     FV = [0.0, 1.0, -1.0, 1.5, -0.25, 0.125, 1024.0, -1e10, 123456.0, 0.5, 3.0, 1e15, -7.75, 65536.0, 0.0625]
@@ -322,6 +328,59 @@ def spaces(tier, variant, seed):
         return (conv, fs, w, p, al.sgn(v), v == int(v))
 
     sp.append(Space("F_vs_libc", list("feE"), f_cases, f_one, "%F{f,e,E} with flags/width/precision on values whose expansion is exact at the requested precision: byte identical to libc's double output"))
+
+    # ---- %Ff / %Fe of large exactly representable values: every digit is determined ----
+    def fb_cases(blk):
+        kk = blk
+        for vkind in range(4):
+            for fs in ("", "-", "+"):
+                for p in (None, 0, 3, "dot"):
+                    for w in (None, 600):
+                        yield (kk, vkind, fs, p, w)
+
+    def fb_one(case, R):
+        kk, vkind, fs, p, w = case
+        e = env()
+        if "bigf" not in e:
+            e["bigf"] = lib.F(64 * 40)
+        f = e["bigf"]
+        v = [(1 << (64 * kk)) - 1, (1 << (64 * kk - 1)) + 12345, 10 ** (19 * kk) - 1, ((1 << (64 * kk)) - 1) * 5 ** 6][vkind]
+        val = Fraction(v, 1000000) if vkind == 3 else Fraction(v)
+        if vkind == 3:
+            val = Fraction(((1 << (64 * kk)) - 1) * 5 ** 6, 10 ** 6)       # = (2^(64k)-1)/2^6 : six exact decimals
+        f.set_frac(-val if "-" in fs and False else val)
+        prec = 6 if p is None else p
+        spec_ = "%" + fs + ("" if w is None else str(w)) + ("" if p is None else ("." if p == "dot" else ".%d" % p)) + "Ff"
+        r, out = gfmt(R, spec_.encode(), [c_void_p(f.p)], spec_)
+        if out is None:
+            return None
+        ip = val.numerator // val.denominator
+        frac = val - ip
+        if p == "dot":
+            # "%.Ff": just the significant digits
+            fd = ""
+            t = frac
+            while t:
+                t *= 10
+                fd += str(t.numerator // t.denominator)
+                t -= t.numerator // t.denominator
+            body = str(ip) + ("." + fd if fd else "")
+        else:
+            scaled = frac * 10 ** prec
+            if scaled.denominator != 1:
+                return None             # would need a rounding rule
+            body = str(ip) + ("." + str(scaled.numerator).rjust(prec, "0") if prec else "")
+        body = ("+" if "+" in fs else "") + body
+        if w is not None and len(body) < w:
+            body = body.ljust(w) if "-" in fs else body.rjust(w)
+        if out != body.encode() or r != len(body):
+            x = out.decode("latin1")
+            d = next((i for i in range(min(len(x), len(body))) if x[i] != body[i]), min(len(x), len(body)))
+            R.fail("gmp_printf %F", "format %r of a %d-digit value: output differs from the exact expansion at character %d of %d (got ...%r, expected ...%r)" % (spec_, len(str(ip)), d, len(body), x[max(0, d - 8):d + 12], body[max(0, d - 8):d + 12]))
+        return ("bigF", kk, vkind, fs, p, w is None)
+
+    sp.append(Space("F_large_exact", list(range(1, 25)), fb_cases, fb_one,
+                    "%Ff (default, .0, .3, bare '.') of 2^(64k)-1, 2^(64k-1)+12345, 10^(19k)-1 and (2^(64k)-1)/64 for k=1..24 held exactly in a 2560-bit mpf: every digit against the exact decimal expansion"))
 
     # ---- mixed standard conversions, snprintf sizes, asprintf, sprintf ----
     MIX = [(b"%d|%Zd|%s", "izs"), (b"%s %Zx %c %5.2f %%", "szcd"), (b"<%ld %Qd %lu>", "lqu"), (b"%Zd%Zd%Zd", "zzz"), (b"%-6d|%+Zd|%#x|%#Zx", "izuz"),
